@@ -42,12 +42,14 @@ import (
 	"context"
 	"errors"
 	"fmt"
+	"os"
 	"reflect"
 	"runtime"
 	"sort"
 	"strings"
 	"sync"
 	"sync/atomic"
+	"syscall"
 	"testing"
 	"time"
 
@@ -80,10 +82,30 @@ const (
 	fInnerSet // every SET fails (today: inside the lock script)
 	fInnerDel // every DEL fails (today: inside the release script)
 	fClosed   // the server is closed (network errors); flaky server only
+	fOddReply // a script command (EVALSHA/EVAL) is not executed and answered with a reply of an unexpected type/value (srv.odd)
 	nFaults
 )
 
-var faultNames = [...]string{"none", "err-reply", "loading-reply", "noscript", "inner-get-fails", "inner-set-fails", "inner-del-fails", "server-closed"}
+var faultNames = [...]string{"none", "err-reply", "loading-reply", "noscript", "inner-get-fails", "inner-set-fails", "inner-del-fails", "server-closed", "odd-reply"}
+
+// replies of an unexpected type or value to a script command (fOddReply). None of
+// them is the success reply of the script concerned ("OK" for the lock script, the
+// integer 1 for the release script): the store never claims a success that did
+// not happen.
+const (
+	oddStatus    = iota // +QUEUED
+	oddStatusOK         // +OK            (release only: the lock script's success reply)
+	oddInt0             // :0
+	oddInt1             // :1             (acquire only: the release script's success reply)
+	oddInt2             // :2
+	oddBulk             // $4 NOPE
+	oddBulkOne          // $1 1           (the digit as a string)
+	oddArrayNone        // *0
+	oddArrayOne         // *1 :7
+	nOdd
+)
+
+var oddNames = [...]string{"status-QUEUED", "status-OK", "int-0", "int-1", "int-2", "bulk-NOPE", "bulk-1", "array-empty", "array-of-int"}
 
 type srv struct {
 	mr    *miniredis.Miniredis
@@ -94,6 +116,11 @@ type srv struct {
 	// connection set-up excluded); compared with cli.sent, see retried()
 	arrived atomic.Int64
 	dirty   bool // the client's breaker may still remember injected failures
+
+	odd atomic.Int32 // fOddReply: which reply
+	// one-shot: run when the next script command of the client arrives at the server,
+	// before it is executed (the call is in flight then)
+	onArrive atomic.Pointer[func()]
 
 	// wall-clock arrival times and connections of the last client commands; only
 	// quoted in "inconclusive" messages to show that a re-execution was a
@@ -128,6 +155,10 @@ func (s *srv) lastArrivals() string {
 type cliHook struct {
 	sent  atomic.Int64 // commands issued by the client
 	armed atomic.Bool  // placement armed (sequential use only)
+	// an application hook that regards "nil reply" as no error: clears redis.Nil on the
+	// command (legal for a hook registered through redis.WithHook)
+	swallowNil atomic.Bool
+	swallowed  atomic.Int64
 
 	mu    sync.Mutex
 	at    int      // run fn immediately before the at-th (0-based) command seen while armed
@@ -177,7 +208,13 @@ func (h *cliHook) ProcessHook(next red.ProcessHook) red.ProcessHook {
 			h.before(cmd.Name())
 		}
 		h.sent.Add(1)
-		return next(ctx, cmd)
+		err := next(ctx, cmd)
+		if err != nil && h.swallowNil.Load() && errors.Is(err, red.Nil) {
+			cmd.SetErr(nil)
+			h.swallowed.Add(1)
+			return nil
+		}
+		return err
 	}
 }
 
@@ -217,7 +254,37 @@ func (s *srv) hook(p *server.Peer, cmd string, args ...string) bool {
 		s.last[len(s.last)-1] = arrival{time.Now(), p, cmd}
 		s.lastMu.Unlock()
 	}
+	if client && (cmd == "EVALSHA" || cmd == "EVAL") {
+		if fn := s.onArrive.Swap(nil); fn != nil {
+			(*fn)()
+		}
+	}
 	switch s.mode.Load() {
+	case fOddReply:
+		if client && (cmd == "EVALSHA" || cmd == "EVAL") {
+			switch s.odd.Load() {
+			case oddStatus:
+				p.WriteInline("QUEUED")
+			case oddStatusOK:
+				p.WriteInline("OK")
+			case oddInt0:
+				p.WriteInt(0)
+			case oddInt1:
+				p.WriteInt(1)
+			case oddInt2:
+				p.WriteInt(2)
+			case oddBulk:
+				p.WriteBulk("NOPE")
+			case oddBulkOne:
+				p.WriteBulk("1")
+			case oddArrayNone:
+				p.WriteLen(0)
+			default:
+				p.WriteLen(1)
+				p.WriteInt(7)
+			}
+			return true
+		}
 	case fErrReply:
 		if client && cmd != "PING" {
 			p.WriteError("ERR verif: injected store outage")
@@ -387,17 +454,41 @@ type seqRun struct {
 	// placement family: non-trivial iff operations of other instances really ran
 	// between two store commands / before the first store command of a call
 	isPlacement, placedNontrivial bool
+
+	// class of the failing input appended to every violation key of this history
+	// (families whose inputs differ in kind from the ordinary histories: "instances")
+	keyClass string
+	// loose[i]: instance i was given a negative SetExpire value. "The configured
+	// seconds" is not defined then: lease lengths of its grants are not asserted
+	// (the store's TTL is adopted), everything else is.
+	loose []bool
+	// compact: do not keep a sample of the whole history (thousands of operations)
+	compact bool
+	// more for the witness of a violation
+	extra func() map[string]any
+}
+
+func newKey(c *kit.Case) string {
+	return fmt.Sprintf("c19:%s:%d:%d", c.Family, c.Index, keySeq.Add(1))
 }
 
 func newSeqRun(c *kit.Case, s *srv, n int) *seqRun {
-	r := &seqRun{c: c, s: s, n: n, holder: -1}
-	r.key = fmt.Sprintf("c19:%s:%d:%d", c.Family, c.Index, keySeq.Add(1))
+	key := newKey(c)
+	lk := make([]*redis.RedisLock, 0, n)
 	for i := 0; i < n; i++ {
-		r.lk = append(r.lk, redis.NewRedisLock(s.store, r.key))
+		lk = append(lk, redis.NewRedisLock(s.store, key))
 	}
+	return newSeqRunOver(c, s, key, lk)
+}
+
+// newSeqRunOver runs a history over lock instances that the caller created (all on key).
+func newSeqRunOver(c *kit.Case, s *srv, key string, lk []*redis.RedisLock) *seqRun {
+	n := len(lk)
+	r := &seqRun{c: c, s: s, n: n, holder: -1, key: key, lk: lk}
 	r.ids = make([]string, n)
 	r.secs = make([]int, n)
 	r.lostByExpiry = make([]bool, n)
+	r.loose = make([]bool, n)
 	// start every history with an empty breaker window
 	vclock.Advance(11 * time.Second)
 	s.dirty = false
@@ -408,8 +499,22 @@ func newSeqRun(c *kit.Case, s *srv, n int) *seqRun {
 func (r *seqRun) finish() { r.s.mr.Del(r.key) }
 
 func (r *seqRun) witness(detail string) map[string]any {
-	return map[string]any{"instances": r.n, "key": r.key, "history": append([]string(nil), r.log...), "detail": detail,
+	w := map[string]any{"instances": r.n, "key": r.key, "history": append([]string(nil), r.log...), "detail": detail,
 		"model_holder": r.holder, "model_remaining_ms": r.rem}
+	if r.extra != nil {
+		for k, v := range r.extra() {
+			w[k] = v
+		}
+	}
+	return w
+}
+
+// tailLog: the last n entries of the history (messages only; witnesses carry all of it).
+func (r *seqRun) tailLog(n int) []string {
+	if len(r.log) <= n {
+		return r.log
+	}
+	return append([]string{fmt.Sprintf("...(%d operations)...", len(r.log)-n)}, r.log[len(r.log)-n:]...)
 }
 
 // accounted reports whether exactly the commands that the client issued in
@@ -433,12 +538,12 @@ func (r *seqRun) viol(key, what string) {
 		r.inconclusive(r.retryEvidence() + "; not judged: " + key)
 		return
 	}
-	r.c.Viol(key, what, r.witness(what))
+	r.c.Viol(key+r.keyClass, what, r.witness(what))
 	r.stop = true
 }
 
 func (r *seqRun) inconclusive(why string) {
-	r.c.Inconclusive(why + " | history: " + strings.Join(r.log, " "))
+	r.c.Inconclusive(why + " | history: " + strings.Join(r.tailLog(60), " "))
 	r.c.Obs("histories_abandoned_inconclusive", 1)
 	r.stop = true
 }
@@ -481,7 +586,7 @@ func (r *seqRun) matches(st sstate, h int, rem int64) bool {
 
 func (r *seqRun) errExpected(isAcquire bool, i int) bool {
 	switch r.s.mode.Load() {
-	case fErrReply, fLoading, fClosed, fInnerGet:
+	case fErrReply, fLoading, fClosed, fInnerGet, fOddReply:
 		return true
 	case fInnerSet:
 		return isAcquire
@@ -507,7 +612,7 @@ func (r *seqRun) onError(opname string, i int, ok bool, err error, cancelled boo
 		// command go-zero built for a legal configuration (e.g. a lease that wrapped to a
 		// non-positive PX), so the instance can never get the free key / its lease.
 		var reply red.Error
-		if errors.As(err, &reply) && !brk {
+		if errors.As(err, &reply) && !brk && !(opname == "acquire" && r.loose[i]) {
 			cls := ""
 			if opname == "acquire" {
 				cls = leaseClass(leaseMs(r.secs[i]))
@@ -540,24 +645,127 @@ func (r *seqRun) onError(opname string, i int, ok bool, err error, cancelled boo
 	}
 }
 
-func (r *seqRun) acquire(i int, cancelled bool) {
-	ctx := context.Background()
-	name := "Acquire"
-	if cancelled {
+// context modes of one call
+const (
+	cxNone             = iota
+	cxCancelledBefore  // cancelled before the call
+	cxDeadlineBefore   // the deadline had passed before the call
+	cxCancelAtClient   // cancelled inside the call, immediately before its first store command is handed to the transport
+	cxCancelInFlight   // cancelled while the call is in flight: its script command has arrived at the server and has not run yet
+	cxDeadlineInFlight // the deadline passes while the script command is at the server, before it runs
+	nCx
+)
+
+var cxNames = [...]string{"", "CancelledCtx", "ExpiredDeadlineCtx", "CtxCancelledBeforeFirstCommand", "CtxCancelledInFlight", "CtxDeadlinePassesInFlight"}
+var cxObs = [...]string{"", "cancelled_before", "deadline_before", "cancelled_at_first_command", "cancelled_in_flight", "deadline_in_flight"}
+
+// withCx prepares the context of one call; after() is to be called when the call
+// has returned (it reports whether an in-flight mode really found the command at
+// the server).
+func (r *seqRun) withCx(cx int) (ctx context.Context, after func()) {
+	ctx = context.Background()
+	switch cx {
+	case cxCancelledBefore:
 		c, cancel := context.WithCancel(ctx)
 		cancel()
-		ctx = c
-		name = "AcquireCancelledCtx"
+		return c, func() {}
+	case cxDeadlineBefore:
+		c, cancel := context.WithDeadline(ctx, time.Now().Add(-time.Second))
+		return c, cancel
+	case cxCancelAtClient:
+		c, cancel := context.WithCancel(ctx)
+		r.s.cli.arm(0, cancel)
+		return c, func() {
+			if fired, _ := r.s.cli.disarm(); fired {
+				r.c.Obs("ctx_cancelled_at_first_command_of_call", 1)
+			}
+			cancel()
+		}
+	case cxCancelInFlight, cxDeadlineInFlight:
+		var c context.Context
+		var cancel context.CancelFunc
+		if cx == cxDeadlineInFlight {
+			// wall clock only decides WHEN the context becomes done (before or in flight:
+			// both are legal inputs), the command is held at the server until it is
+			c, cancel = context.WithTimeout(ctx, 15*time.Millisecond)
+		} else {
+			c, cancel = context.WithCancel(ctx)
+		}
+		var hit atomic.Bool
+		fn := func() {
+			if cx == cxCancelInFlight {
+				cancel()
+			}
+			<-c.Done()
+			hit.Store(true)
+		}
+		r.s.onArrive.Store(&fn)
+		return c, func() {
+			r.s.onArrive.Store(nil)
+			cancel()
+			if hit.Load() {
+				r.c.Obs("ctx_done_while_command_at_server", 1)
+			}
+		}
 	}
+	return ctx, func() {}
+}
+
+func (r *seqRun) acquire(i int, cancelled bool) {
+	if cancelled {
+		r.acquireCx(i, cxCancelledBefore)
+	} else {
+		r.acquireCx(i, cxNone)
+	}
+}
+
+// looseError: an Acquire of an instance with a negative SetExpire value returned an
+// error. Only: no grant, and the store untouched or showing this instance.
+func (r *seqRun) looseError(i int, ok bool, err error) {
+	r.resync()
+	r.c.Obs("negative_seconds_acquire_errors", 1)
+	if ok {
+		r.viol("C19/error/success-reported-with-error", fmt.Sprintf("acquire by instance %d returned (true, %v)", i, err))
+		return
+	}
+	st := r.store()
+	if r.matches(st, r.holder, r.rem) {
+		return
+	}
+	if (r.holder < 0 || r.holder == i) && st.exists && (r.ids[i] == "" || r.ids[i] == st.val) && st.ttl > 0 {
+		r.holder, r.rem = i, st.ttl
+		return
+	}
+	r.viol("C19/error/store-corrupted-after-failed-acquire", fmt.Sprintf("acquire by instance %d (SetExpire(%d)) failed with %v and left the store at %+v (model: holder %d, %d ms)", i, r.secs[i], err, st, r.holder, r.rem))
+}
+
+func (r *seqRun) acquireCx(i, cx int) {
+	ctx, after := r.withCx(cx)
+	name := "Acquire" + cxNames[cx]
+	cancelled := cx != cxNone
 	s0 := r.s.cli.sent.Load()
 	ok, err := r.lk[i].AcquireCtx(ctx)
+	after()
 	r.log = append(r.log, fmt.Sprintf("%s(%d)=%v%s", name, i, ok, errStr(err)))
 	want := r.holder < 0 || r.holder == i
-	lease := leaseMs(r.secs[i])
+	var lease int64
+	if !r.loose[i] {
+		lease = leaseMs(r.secs[i])
+	}
 	if err != nil {
+		if r.loose[i] && !cancelled && r.s.mode.Load() == fNone {
+			r.looseError(i, ok, err)
+			return
+		}
 		h, rem := r.holder, r.rem
 		if want {
 			h, rem = i, lease
+		}
+		if cancelled {
+			r.c.Obs("ops_ctx_"+cxObs[cx]+"_error", 1)
+			if !errors.Is(err, context.Canceled) {
+				r.s.dirty = true // a passed deadline counts as a failure in the client's breaker
+			}
 		}
 		r.onError("acquire", i, ok, err, cancelled, h, rem)
 		return
@@ -567,11 +775,18 @@ func (r *seqRun) acquire(i int, cancelled bool) {
 		r.inconclusive("Acquire returned without error, but " + r.retryEvidence())
 		return
 	}
+	if cancelled {
+		r.c.Obs("ops_ctx_"+cxObs[cx]+"_completed", 1)
+	}
 	r.c.Obs("acquire_calls_ok", 1)
 	r.c.Obs("acquire_calls_ok_store_commands", r.s.cli.sent.Load()-s0)
 	if expErr && !ok && r.matches(r.store(), r.holder, r.rem) {
 		// the failure was swallowed as a plain denial; harmless for the statement
 		r.c.Obs("store_error_reported_as_denial", 1)
+		if r.s.mode.Load() == fOddReply {
+			r.c.Obs("odd_reply_to_acquire_reported_as_denial", 1)
+			r.c.Obs("odd_reply_to_acquire_"+oddNames[r.s.odd.Load()], 1)
+		}
 		r.faultOps++
 		return
 	}
@@ -622,6 +837,19 @@ func (r *seqRun) acquire(i int, cancelled bool) {
 		r.viol("C19/acquire/granted-but-not-stored", fmt.Sprintf("Acquire by instance %d returned true but the key holds the id of %s", i, r.whoIs(st.val)))
 		return
 	}
+	if r.loose[i] {
+		// negative SetExpire value: the statement defines no lease length; the store's is adopted
+		r.c.Obs("acquire_granted_with_negative_seconds", 1)
+		if st.ttl == 0 {
+			r.c.Obs("acquire_granted_with_negative_seconds_no_expiry", 1)
+			r.log = append(r.log, "(key without expiry: history ends)")
+			r.stop = true
+			return
+		}
+		r.holder, r.rem = i, st.ttl
+		r.lostByExpiry[i] = false
+		return
+	}
 	r.c.Obs("lease_ttl_readings", 1)
 	if st.ttl == 0 {
 		r.viol("C19/lease/no-ttl/"+kind+leaseClass(lease), fmt.Sprintf("after Acquire by instance %d (seconds=%d) the key has no expiry", i, r.secs[i]))
@@ -636,14 +864,17 @@ func (r *seqRun) acquire(i int, cancelled bool) {
 }
 
 func (r *seqRun) release(i int, cancelled bool) {
-	ctx := context.Background()
-	name := "Release"
 	if cancelled {
-		c, cancel := context.WithCancel(ctx)
-		cancel()
-		ctx = c
-		name = "ReleaseCancelledCtx"
+		r.releaseCx(i, cxCancelledBefore)
+	} else {
+		r.releaseCx(i, cxNone)
 	}
+}
+
+func (r *seqRun) releaseCx(i, cx int) {
+	ctx, after := r.withCx(cx)
+	name := "Release" + cxNames[cx]
+	cancelled := cx != cxNone
 	class := "free-key"
 	switch {
 	case r.holder >= 0 && r.holder != i && r.lostByExpiry[i]:
@@ -655,12 +886,19 @@ func (r *seqRun) release(i int, cancelled bool) {
 	}
 	s0 := r.s.cli.sent.Load()
 	ok, err := r.lk[i].ReleaseCtx(ctx)
+	after()
 	r.log = append(r.log, fmt.Sprintf("%s(%d)=%v%s", name, i, ok, errStr(err)))
 	want := r.holder == i
 	if err != nil {
 		h, rem := r.holder, r.rem
 		if want {
 			h, rem = -1, 0
+		}
+		if cancelled {
+			r.c.Obs("ops_ctx_"+cxObs[cx]+"_error", 1)
+			if !errors.Is(err, context.Canceled) {
+				r.s.dirty = true
+			}
 		}
 		r.onError("release", i, ok, err, cancelled, h, rem)
 		return
@@ -670,11 +908,18 @@ func (r *seqRun) release(i int, cancelled bool) {
 		r.inconclusive("Release returned without error, but " + r.retryEvidence())
 		return
 	}
+	if cancelled {
+		r.c.Obs("ops_ctx_"+cxObs[cx]+"_completed", 1)
+	}
 	r.c.Obs("release_calls_ok", 1)
 	r.c.Obs("release_calls_ok_store_commands", r.s.cli.sent.Load()-s0)
 	st := r.store()
 	if expErr && !ok && r.matches(st, r.holder, r.rem) {
 		r.c.Obs("store_error_reported_as_denial", 1)
+		if r.s.mode.Load() == fOddReply {
+			r.c.Obs("odd_reply_to_release_reported_as_false", 1)
+			r.c.Obs("odd_reply_to_release_"+oddNames[r.s.odd.Load()], 1)
+		}
 		r.faultOps++
 		return
 	}
@@ -711,6 +956,7 @@ func (r *seqRun) release(i int, cancelled bool) {
 func (r *seqRun) setExpire(i, s int) {
 	r.lk[i].SetExpire(s)
 	r.secs[i] = s
+	r.loose[i] = s < 0
 	r.log = append(r.log, fmt.Sprintf("SetExpire(%d,%d)", i, s))
 	if !r.matches(r.store(), r.holder, r.rem) {
 		r.viol("C19/setexpire/store-changed", fmt.Sprintf("SetExpire changed the store to %+v", r.store()))
@@ -854,10 +1100,14 @@ func (r *seqRun) conclude() {
 		sig = append(sig, l)
 	}
 	c.Sig(nontrivial && !r.stop, sig...)
+	hist := r.log
+	if r.compact && len(hist) > 40 {
+		hist = append(append(append([]string(nil), hist[:30]...), fmt.Sprintf("...(%d operations)...", len(hist)-40)), hist[len(hist)-10:]...)
+	}
 	if nontrivial {
-		c.Sample(c.Family+"-nontrivial", 1, map[string]any{"instances": r.n, "history": r.log})
+		c.Sample(c.Family+"-nontrivial", 1, map[string]any{"instances": r.n, "history": hist})
 	} else {
-		c.Sample(c.Family, 1, map[string]any{"instances": r.n, "history": r.log})
+		c.Sample(c.Family, 1, map[string]any{"instances": r.n, "history": hist})
 	}
 	r.finish()
 }
@@ -989,7 +1239,10 @@ func seqOutage(c *kit.Case) {
 	g := c.R
 	n := g.Range(2, 5)
 	s := mainSrv
-	closing := c.Index%8 == 0 // network-level outage on the flaky server
+	// network-level outage on the flaky server: one case in eight. These cases cost wall-clock
+	// retry back-off, so they must not all land in the same child (index%8 == 0 put all of them
+	// into child 0 of 8, which then ran two minutes longer than the others).
+	closing := (c.Index+c.Index/8)%8 == 0
 	if closing {
 		if flakySrv.mode.Load() == fClosed { // an earlier restart failed: start over on a fresh server
 			flakySrv = newSrv()
@@ -1821,6 +2074,23 @@ func concOutage(c *kit.Case) {
 
 // ---------------------------------------------------------------- entry
 
+// fam runs one family; with VERIF_C19_TIMING set it prints what the family cost
+// (wall, process CPU) to stderr - for budgeting only, never for a verdict.
+func fam(t *testing.T, family string, n int, fn func(c *kit.Case)) {
+	if os.Getenv("VERIF_C19_TIMING") == "" {
+		kit.Run(t, "C19", family, n, fn)
+		return
+	}
+	cpu := func() time.Duration {
+		var ru syscall.Rusage
+		syscall.Getrusage(syscall.RUSAGE_SELF, &ru)
+		return time.Duration(ru.Utime.Nano() + ru.Stime.Nano())
+	}
+	t0, c0 := time.Now(), cpu()
+	kit.Run(t, "C19", family, n, fn)
+	fmt.Fprintf(os.Stderr, "c19 timing %-16s cases=%-6d wall=%-8s cpu=%s\n", family, n, time.Since(t0).Round(time.Millisecond), (cpu() - c0).Round(time.Millisecond))
+}
+
 func TestVerifC19(t *testing.T) {
 	logx.Disable()
 	vclock = kit.InstallVClock()
@@ -1830,15 +2100,19 @@ func TestVerifC19(t *testing.T) {
 		t.Fatal("cannot reach miniredis")
 	}
 
-	kit.Run(t, "C19", "seq-pattern", kit.N(3000, 60000), seqPattern)
-	kit.Run(t, "C19", "seq-random", kit.N(4000, 80000), seqRandom)
-	kit.Run(t, "C19", "seq-outage", kit.N(1600, 25000), seqOutage)
-	kit.Run(t, "C19", "seq-lease-grid", kit.N(400, 6000), seqLeaseGrid)
-	kit.Run(t, "C19", "seq-placement", kit.N(600, 10000), seqPlacement)
-	kit.Run(t, "C19", "conc-own", kit.N(1500, 30000), concOwn)
-	kit.Run(t, "C19", "conc-stampede", kit.N(600, 12000), concStampede)
-	kit.Run(t, "C19", "conc-shared", kit.N(600, 12000), concShared)
-	kit.Run(t, "C19", "conc-outage", kit.N(500, 10000), concOutage)
+	fam(t, "seq-pattern", kit.N(3000, 60000), seqPattern)
+	fam(t, "seq-random", kit.N(4000, 80000), seqRandom)
+	fam(t, "seq-outage", kit.N(1600, 25000), seqOutage)
+	fam(t, "seq-lease-grid", kit.N(400, 6000), seqLeaseGrid)
+	fam(t, "seq-placement", kit.N(600, 10000), seqPlacement)
+	fam(t, "conc-own", kit.N(1500, 30000), concOwn)
+	fam(t, "conc-stampede", kit.N(600, 12000), concStampede)
+	fam(t, "conc-shared", kit.N(600, 12000), concShared)
+	fam(t, "conc-outage", kit.N(500, 10000), concOutage)
+	fam(t, "seq-faults", kit.N(256, 5120), seqFaults)
+	// last: from its first seeded case on, the process has called stringx.Seed
+	nInst := kit.N(24, 600)
+	fam(t, "instances", nInst, func(c *kit.Case) { instances(c, nInst) })
 
 	kit.UninstallVClock()
 	kit.End()
